@@ -247,6 +247,22 @@ def check(sp, which="both"):
             except Exception as e:  # noqa
                 raise Violation("reimport-raises:" + type(e).__name__, repr(e)[:200], case)
             cmp_import(t, m, case, "clean" if clean else "raw")
+        # a branch exported on its own (to_xml called on an inner node, on its copy, on the node after it was removed):
+        # a document of its own, declaring every binding the branch has
+        inner = [x for x in treegen.nodes(t)[1:] if x.tail is None]
+        if inner:
+            from vf.runner import h64
+            b = inner[h64(sp) % len(inner)]
+            forms = [("inner node", lambda: b), ("copy of an inner node", lambda: b.copy()),
+                     ("removed child", lambda: (b.parent.remove_child(b), b)[1])]
+            for label, get in forms:
+                try:
+                    x = get()
+                    xml_b = metapype_io.to_xml(x)
+                except Exception as e:  # noqa
+                    raise Violation("general-export-raises:" + type(e).__name__, f"to_xml({label}): " + repr(e)[:200], case)
+                lx, ex = parse_both(xml_b, case, "general:" + label)
+                cmp_general(x, lx, ex, case)
     if which in ("both", "eml"):
         sp2 = treegen._copy(sp)
         eml_repair(sp2)
